@@ -531,7 +531,7 @@ func (t *AHtree) InclusionProof(i, j uint64) (p [][sha256.Size]byte, err error) 
 		return
 	}
 
-	if i > j {
+	if i == 0 || i > j {
 		return nil, ErrIllegalArguments
 	}
 
@@ -585,7 +585,7 @@ func (t *AHtree) ConsistencyProof(i, j uint64) (p [][sha256.Size]byte, err error
 		return
 	}
 
-	if i > j {
+	if i == 0 || i > j {
 		return nil, ErrIllegalArguments
 	}
 
